@@ -4,6 +4,7 @@ package main
 
 import (
 	"fmt"
+	"os"
 	"go/types"
 	"regexp"
 	"strings"
@@ -98,6 +99,12 @@ func flatten(v Val) []string {
 		if v.Root == rootObj && len(v.Path) == 0 {
 			return []string{v.Ref}
 		}
+		if v.Root == rootElem && len(v.Path) == 0 {
+			// a pointer to a slice element kept in memory: an opaque non-nil reference
+			// (what is read through it later is unconstrained)
+			needElemPtr = true
+			return []string{app("elemptr", v.Ref, v.Idx)}
+		}
 		panic(unsupported("flatten of interior pointer"))
 	case nil:
 		return nil
@@ -180,10 +187,15 @@ func rebuild(proto Val, ts []string) (Val, []string) {
 	panic(fmt.Sprintf("rebuild: %T", proto))
 }
 
+var needElemPtr bool
+
 type unsupportedErr struct{ msg string }
 
 func (e unsupportedErr) Error() string { return "unsupported: " + e.msg }
 func unsupported(format string, a ...any) unsupportedErr {
+	if os.Getenv("GOVC_DEBUG") != "" {
+		panic(fmt.Sprintf(format, a...))
+	}
 	return unsupportedErr{fmt.Sprintf(format, a...)}
 }
 
